@@ -67,3 +67,48 @@ fn c17_builtin_definitions() {
     std::mem::forget(a);
     std::mem::forget(n);
 }
+
+fn allowed(c: u8) -> bool {
+    (b'a'..=b'z').contains(&c) || (b'0'..=b'9').contains(&c) || c == b'_' || c == b'.'
+}
+
+/// `$name`: the name is the longest run of a-z, 0-9, `_`, `.` after the dollar;
+/// an empty run, or one that starts or ends with a dot, is rejected; anything
+/// else (an upper-case letter, for instance) ends the name and stays in the rest.
+#[kani::proof]
+#[kani::unwind(5)]
+fn c17_list_name_lex() {
+    use crate::lex::Lex;
+    use crate::rhs_types::ListName;
+    let c: [u8; 2] = [kani::any(), kani::any()];
+    kani::assume(c[0] < 0x80 && c[1] < 0x80);
+    let buf: [u8; 3] = [b'$', c[0], c[1]];
+    let len: usize = kani::any();
+    kani::assume(len >= 1 && len <= 3);
+    let s = unsafe { std::str::from_utf8_unchecked(&buf[..len]) };
+    let n = len - 1;
+    let mut run = 0;
+    if n >= 1 && allowed(c[0]) {
+        run = 1;
+        if n >= 2 && allowed(c[1]) {
+            run = 2;
+        }
+    }
+    let bad_dot = run > 0 && (c[0] == b'.' || c[run - 1] == b'.');
+    let res = ListName::lex(s);
+    match &res {
+        Ok((name, rest)) => {
+            assert!(run > 0 && !bad_dot, "invalid list name accepted");
+            let nb = name.as_str().as_bytes();
+            assert!(nb.len() == run && nb[0] == c[0] && (run < 2 || nb[1] == c[1]),
+                "list name is not the run of a-z, 0-9, _, . after the dollar");
+            assert!(rest.len() == n - run, "list name consumed a different number of characters");
+        }
+        Err(_) => assert!(run == 0 || bad_dot, "valid list name rejected"),
+    }
+    kani::cover!(res.is_ok() && run == 1 && n == 2 && c[1] == b'B');
+    kani::cover!(res.is_ok() && run == 2 && c[1] == b'_');
+    kani::cover!(res.is_err() && c[0] == b'A');
+    kani::cover!(res.is_err() && run == 2 && c[1] == b'.');
+    std::mem::forget(res);
+}
